@@ -1154,6 +1154,12 @@ func (env *SpecEnv) applySpec(sf *SpecFun, args []Val) (Val, error) {
 		// macro bodies must not capture caller-local names
 		sub.names = nil
 		sub.fr = nil
+		if sf.Pkg != "" {
+			// type and global names in the body resolve in the declaring package
+			if p := x.eng.pkgs[sf.Pkg]; p != nil && p.Pkg != nil {
+				sub.fnPkg = p.Pkg
+			}
+		}
 		r, err := sub.eval(sf.Body)
 		if err != nil {
 			return Val{}, fmt.Errorf("in %s: %v", sf.Name, err)
